@@ -516,4 +516,36 @@ theorem WF_map_red' {α : Type} (l : List α) (k : Nat) (f : α → Int) : (⟨l
   · exact Or.inl hk
   · exact Or.inr (red_range (Nat.pos_of_ne_zero hk) _)
 
+
+/-! ### refinement of Spec.Poly -/
+
+theorem coeffOp_zero (op : BinOp) (k : Nat) : coeffOp op k 0 0 = 0 := by
+  cases op <;> simp only [coeffOp, red] <;> split <;> first | rfl | decide | simp
+
+theorem e_eq_coeff (a : Poly) (i : Nat) : a.e i = Spec.Poly.coeff a.ival i := rfl
+
+theorem binop_eq_pointwise {op : BinOp} {a b : Poly} (h : a.size = b.size) :
+    binop op a b = .ok ⟨Spec.Poly.pointwise (coeffOp op a.size) a.ival b.ival, a.size⟩ := by
+  rw [binop_ok h]; rfl
+
+theorem pointwise_congr {f g : Int → Int → Int} {a b : List Int}
+    (h : ∀ i, f (Spec.Poly.coeff a i) (Spec.Poly.coeff b i) = g (Spec.Poly.coeff a i) (Spec.Poly.coeff b i)) :
+    Spec.Poly.pointwise f a b = Spec.Poly.pointwise g a b := by
+  unfold Spec.Poly.pointwise
+  apply List.map_congr_left
+  intro i _; exact h i
+
+theorem land_ofNat {x y : Int} (hx : 0 ≤ x) (hy : 0 ≤ y) : Spec.Poly.land x y = Int.ofNat (x.toNat &&& y.toNat) := by
+  obtain ⟨m, rfl⟩ := Int.eq_ofNat_of_zero_le hx
+  obtain ⟨n, rfl⟩ := Int.eq_ofNat_of_zero_le hy
+  rfl
+theorem lor_ofNat {x y : Int} (hx : 0 ≤ x) (hy : 0 ≤ y) : Spec.Poly.lor x y = Int.ofNat (x.toNat ||| y.toNat) := by
+  obtain ⟨m, rfl⟩ := Int.eq_ofNat_of_zero_le hx
+  obtain ⟨n, rfl⟩ := Int.eq_ofNat_of_zero_le hy
+  rfl
+theorem lxor_ofNat {x y : Int} (hx : 0 ≤ x) (hy : 0 ≤ y) : Spec.Poly.lxor x y = Int.ofNat (x.toNat ^^^ y.toNat) := by
+  obtain ⟨m, rfl⟩ := Int.eq_ofNat_of_zero_le hx
+  obtain ⟨n, rfl⟩ := Int.eq_ofNat_of_zero_le hy
+  rfl
+
 end Proofs.PolyL
